@@ -25,7 +25,11 @@ LIMIT = 65536
 def payloads(tier, rng):
     ps = [b'', b'\x00', b'a', b'ab' * 50, b'\x00' * 5000, rng.bytes(3), rng.bytes(100), rng.bytes(4096),
           bytes(range(256)) * 8, (b'the quick brown fox ' * 400), rng.bytes(70000), b'z' * 70000]
+    # lengths around the internal block sizes of the codecs: deflate stored blocks (65535), snappy blocks (65536), zstd blocks (128 KiB)
+    for n in (65534, 65535, 65536, 65537, 131070, 131071, 131072, 131073):
+        ps.append(rng.bytes(n))
     if tier != 'quick':
+        ps += [b'k' * n for n in (65535, 131070, 196605, 131072)]
         ps += [rng.bytes(300000), (b'abcdefgh' * 40000), b'\x00' * 1000000]
         ps += [rng.bytes(rng.below(3000)) for _ in range(300)]
     else:
